@@ -26,6 +26,15 @@
 //!                  the information item name, or the error with its payload (ImplVsModel); and
 //!                  `build` against the composed `recognizeText`.  For every generated table the
 //!                  driver also evaluates `scanInvertsDraw` (scanner model ∘ draw = planeOf).
+//!   (f) merged     entry cells merged over 2, 3, … up to all adjacent rules, systematically: input,
+//!                  output and annotation entries; first / middle / last column of the part; from the
+//!                  first rule / in the middle / to the last rule; several merged cells in one table;
+//!                  both orientations; with and without information item name, allowed values,
+//!                  annotations.  Drawn by the harness (`mix_drawing_merged`, the merged cell is ONE
+//!                  box), expectation written out (every covered rule has the text of the box);
+//!                  ImplVsSpec against `build`, evaluation against the XML twin, and every text goes
+//!                  to the scanner model.  Merged INPUT cells of every length 3..=r are also forced
+//!                  into the tables the Lean `draw` draws (`merge: true`), families (a)-(e).
 
 use crate::model::Model;
 use crate::report::{Kind, Report};
@@ -1114,7 +1123,7 @@ struct Case {
 pub fn run(cfg: &Cfg) -> Report {
   let mut rep = Report::new(
     "C19",
-    "generated tables (1..5 inputs, 1..3 outputs, 0..2 annotations, 1..8 rules, 11 hit policy markers, both orientations, information item name / allowed values / output label / split header lane on and off, random cell widths, heights and text positions, multi-line cells), drawn by the Lean `draw`, recognised by the real recogniser; plus corruptions of the drawings and arbitrary text. Non-trivial: a drawing of a table (any shape) or a corrupted drawing that differs from its original; distinct by the text given to the recogniser.",
+    "generated tables (1..5 inputs, 1..3 outputs, 0..2 annotations, 1..8 rules, 11 hit policy markers, both orientations, information item name / allowed values / output label / split header lane on and off, random cell widths, heights and text positions, multi-line cells), drawn by the Lean `draw`, recognised by the real recogniser; drawings with mixed header shapes and with entry cells merged over 2..all adjacent rules (input, output, annotation entries) drawn by the harness with a written-out expectation; plus corruptions of the drawings and arbitrary text. Non-trivial: a drawing of a table (any shape) or a corrupted drawing that differs from its original; distinct by the text given to the recogniser.",
   );
   install_panic_recorder();
   let thorough = cfg.tier == "thorough";
@@ -1175,6 +1184,59 @@ pub fn run(cfg: &Cfg) -> Report {
     let sh = random_shape(&mut rng);
     let multi = rng.chance(1, 2);
     cases.push(mk_case(&mut rng, &sh, i % 3 != 0, multi));
+  }
+
+  // input entry cells merged over 3, 4, … r adjacent rules (r = 3..8), forced (family `merged`, the part
+  // drawn by the Lean `draw`): the run starts at the first rule / in the middle / ends at the last rule,
+  // in the first / a middle / the last input column; appended last and generated from a random state
+  // of their own, so that the cases above are what they were
+  {
+    let mut rng_m = Rng::new(cfg.seed ^ 0x6d65_7267_6564);
+    let mut idx = 0usize;
+    for orient in ["rows", "cols"] {
+      for r in 3..=8usize {
+        for len in 3..=r {
+          for _ in 0..(if thorough { 9 } else { 2 }) {
+            idx += 1;
+            let (n, j) = match idx % 3 {
+              0 => (1 + rng_m.below(5) as usize, 0),
+              1 => {
+                let n = 3 + rng_m.below(3) as usize;
+                (n, 1 + rng_m.below(n as u64 - 2) as usize)
+              }
+              _ => {
+                let n = 1 + rng_m.below(5) as usize;
+                (n, n - 1)
+              }
+            };
+            let s = match (idx / 3) % 3 {
+              0 => 0,
+              1 => (r - len) / 2,
+              _ => r - len,
+            };
+            let sh = Shape {
+              orient,
+              n,
+              m: 1 + rng_m.below(3) as usize,
+              k: rng_m.below(3) as usize,
+              r,
+              hp: MARKERS[idx % MARKERS.len()],
+              name: rng_m.chance(1, 2),
+              values: rng_m.chance(1, 2),
+              label: rng_m.chance(1, 2),
+              split: rng_m.chance(1, 2),
+              quirks: false,
+              blank_values: 0,
+              merge: true,
+            };
+            let multi = rng_m.chance(1, 2);
+            let mut case = mk_case(&mut rng_m, &sh, idx % 4 != 0, multi);
+            equalise_entries(&mut case.tbl, 0, j, s, len);
+            cases.push(case);
+          }
+        }
+      }
+    }
   }
 
   // ---- layout, drawing ---------------------------------------------------------------------------
@@ -1253,6 +1315,10 @@ pub fn run(cfg: &Cfg) -> Report {
     rep.hit(&format!("header-lanes:{}", t.header_lanes()));
     if t.merge && (1..t.rules.len()).any(|i| (0..t.inputs.len()).any(|j| t.rules[i].0[j] == t.rules[i - 1].0[j])) {
       rep.hit("merged-input-entry-cells");
+    }
+    if t.merge && longest_input_run(t) >= 2 {
+      rep.hit(&format!("merged-input-{}:lean-draw:{}", if longest_input_run(t) >= 3 { "3+" } else { "2" }, t.orient));
+      rep.hit(&format!("merged-input:lean-draw:longest-run:{}", longest_input_run(t)));
     }
     rep.hit(&format!("parts:name{}-values{}-label{}-split{}", t.name.is_some() as u8, t.has_values() as u8, t.label.is_some() as u8, t.split as u8));
     let wf = ans[5].to_string() == "(wf true)";
@@ -1549,6 +1615,7 @@ pub fn run(cfg: &Cfg) -> Report {
     }
   }
   mixed_family(&mut rep, cfg.seed, thorough, &mut scan_cases); // c19fix: mixed header shapes, box-drawing characters in cell texts
+  merged_family(&mut rep, cfg.seed, thorough, &mut scan_cases); // entry cells merged over 2, 3, … adjacent rules
   // the scanner and the whole pipeline against the scanner model, on every text given to the recogniser
   let sreqs: Vec<String> = scan_cases.iter().map(|x| format!("(c19 scan {})", Sexp::str(&x.0))).collect();
   let sans = model.ask_batch(&sreqs);
@@ -1695,6 +1762,15 @@ fn mix_junction(up: bool, down: bool, left: bool, right: bool, vd: bool, hd: boo
 /// Draws the grid; returns the lines of the drawing and the raw (padded) text of every region, as
 /// `text_from_rect` cuts it out: the interior lines of the region joined with line breaks.
 fn mix_draw(rng: &mut Rng, g: &MixGrid, roomy: bool) -> (Vec<String>, Vec<String>) {
+  let (lines, raw, _) = mix_draw_named(rng, g, roomy, None);
+  (lines, raw)
+}
+
+/// `mix_draw` with an optional information item name: the box is drawn above the body, its right
+/// edge ends inside a cell (`┴`), on a single vertical line (`┼`) or at the right edge of the body
+/// (`┤`), never over a double line and never beyond the body (the body is widened when the name
+/// needs it).  The third component is the raw text of the box (its interior lines).
+fn mix_draw_named(rng: &mut Rng, g: &MixGrid, roomy: bool, name: Option<&str>) -> (Vec<String>, Vec<String>, Option<String>) {
   let nrows = g.key.len();
   let ncols = g.key[0].len();
   let nreg = g.texts.len();
@@ -1730,6 +1806,30 @@ fn mix_draw(rng: &mut Rng, g: &MixGrid, roomy: bool) -> (Vec<String>, Vec<String
   let mut xb = vec![0usize; ncols + 1];
   for c in 0..ncols {
     xb[c + 1] = xb[c] + w[c] + 1;
+  }
+  // the information item box: x position of its right edge
+  let name_lines: Option<Vec<Vec<char>>> = name.map(lines_of);
+  let mut box_right = 0usize;
+  if let Some(ls) = &name_lines {
+    let mut xr = ls.iter().map(|l| l.len()).max().unwrap_or(0).max(1) + 1 + if roomy { rng.below(6) as usize } else { 0 };
+    if xr > xb[ncols] {
+      w[ncols - 1] += xr - xb[ncols];
+      xb[ncols] = xr;
+    } else {
+      match rng.below(4) {
+        0 => xr = xb[ncols],
+        1 => {
+          if let Some(b) = (1..=ncols).find(|b| xb[*b] >= xr) {
+            xr = xb[b];
+          }
+        }
+        _ => {}
+      }
+    }
+    if g.vdbl.iter().any(|b| xb[*b] == xr) {
+      xr += 1;
+    }
+    box_right = xr;
   }
   let mut yb = vec![0usize; nrows + 1];
   for r in 0..nrows {
@@ -1782,7 +1882,34 @@ fn mix_draw(rng: &mut Rng, g: &MixGrid, roomy: bool) -> (Vec<String>, Vec<String
       raw[k] = (y0..y1).map(|y| canvas[y][x0..x1].iter().collect::<String>()).collect::<Vec<_>>().join("\n");
     }
   }
-  (canvas.iter().map(|l| l.iter().collect::<String>()).collect(), raw)
+  let mut lines: Vec<String> = vec![];
+  let mut raw_name = None;
+  if let Some(ls) = &name_lines {
+    let wbox = box_right - 1;
+    let hbox = ls.len() + if roomy && rng.chance(1, 4) { 1 } else { 0 };
+    let mut interior = vec![vec![' '; wbox]; hbox];
+    let top = rng.below((hbox - ls.len() + 1) as u64) as usize;
+    for (i, l) in ls.iter().enumerate() {
+      let left = rng.below((wbox - l.len() + 1) as u64) as usize;
+      for (j, ch) in l.iter().enumerate() {
+        interior[top + i][left + j] = *ch;
+      }
+    }
+    lines.push(format!("┌{}┐", "─".repeat(wbox)));
+    for l in &interior {
+      lines.push(format!("│{}│", l.iter().collect::<String>()));
+    }
+    raw_name = Some(interior.iter().map(|l| l.iter().collect::<String>()).collect::<Vec<_>>().join("\n"));
+    canvas[0][0] = '├';
+    canvas[0][box_right] = match canvas[0][box_right] {
+      '─' => '┴',
+      '┬' => '┼',
+      '┐' => '┤',
+      other => other,
+    };
+  }
+  lines.extend(canvas.iter().map(|l| l.iter().collect::<String>()));
+  (lines, raw, raw_name)
 }
 
 /// The header shapes of the family `mixed`: (name, several outputs, label lane, header lanes).
@@ -1817,7 +1944,21 @@ impl MixRegs {
 /// Draws `t` (logical texts; the clauses with `values == None` span the allowed-values lane) with
 /// `lanes` header lanes; returns the text of the drawing and the expected outcome of `build`.
 fn mix_drawing(rng: &mut Rng, t: &Tbl, lanes: usize, roomy: bool) -> (String, String) {
+  mix_drawing_merged(rng, t, lanes, roomy, None)
+}
+
+/// `own[part][i][j]` (part 0 inputs, 1 outputs, 2 annotations): the rule whose entry cell at
+/// position `j` of the part also covers rule `i` — the first rule of the run of adjacent rules the
+/// cell is merged over (`i` itself for a cell of its own).
+type Owners = [Vec<Vec<usize>>; 3];
+
+/// `mix_drawing` with entry cells merged over adjacent rules (`own`) and with the information item
+/// name of `t`, when it has one.  A merged cell is ONE box: no separators inside, its text (the text
+/// of the owning rule) written once, anywhere in the box.  Expectation: every rule the cell covers
+/// has the raw text of the whole box.
+fn mix_drawing_merged(rng: &mut Rng, t: &Tbl, lanes: usize, roomy: bool, own: Option<&Owners>) -> (String, String) {
   let (n, m, k, r) = (t.inputs.len(), t.outputs.len(), t.anns.len(), t.rules.len());
+  let owner = |part: usize, i: usize, j: usize| -> usize { own.map(|o| o[part][i][j]).unwrap_or(i) };
   let label_lane = m > 1 && t.label.is_some();
   let mut regs = MixRegs { names: vec![], texts: vec![] };
   let npos = 1 + n + m + k;
@@ -1856,13 +1997,16 @@ fn mix_drawing(rng: &mut Rng, t: &Tbl, lanes: usize, roomy: bool) -> (String, St
     let lane = &mut lane_keys[lanes + i];
     lane[0] = regs.id(format!("rule{}", i), &(i + 1).to_string());
     for j in 0..n {
-      lane[1 + j] = regs.id(format!("ine{}_{}", i, j), &t.rules[i].0[j]);
+      let o = owner(0, i, j);
+      lane[1 + j] = regs.id(format!("ine{}_{}", o, j), &t.rules[o].0[j]);
     }
     for j in 0..m {
-      lane[1 + n + j] = regs.id(format!("oute{}_{}", i, j), &t.rules[i].1[j]);
+      let o = owner(1, i, j);
+      lane[1 + n + j] = regs.id(format!("oute{}_{}", o, j), &t.rules[o].1[j]);
     }
     for j in 0..k {
-      lane[1 + n + m + j] = regs.id(format!("anne{}_{}", i, j), &t.rules[i].2[j]);
+      let o = owner(2, i, j);
+      lane[1 + n + m + j] = regs.id(format!("anne{}_{}", o, j), &t.rules[o].2[j]);
     }
   }
   let grid = if t.orient == "rows" {
@@ -1880,7 +2024,7 @@ fn mix_drawing(rng: &mut Rng, t: &Tbl, lanes: usize, roomy: bool) -> (String, St
     }
     MixGrid { key, texts: regs.texts.clone(), vdbl: vec![lanes], hdbl }
   };
-  let (lines, raw) = mix_draw(rng, &grid, roomy);
+  let (lines, raw, raw_name) = mix_draw_named(rng, &grid, roomy, t.name.as_deref());
   let get = |regs: &MixRegs, name: String| -> String { regs.names.iter().position(|x| *x == name).map(|i| raw[i].clone()).unwrap_or_default() };
   let inputs: Vec<(String, Option<String>)> = (0..n).map(|j| (get(&regs, format!("expr{}", j)), t.inputs[j].1.as_ref().map(|_| get(&regs, format!("inval{}", j))))).collect();
   let outputs: Vec<(Option<String>, Option<String>)> =
@@ -1890,13 +2034,13 @@ fn mix_drawing(rng: &mut Rng, t: &Tbl, lanes: usize, roomy: bool) -> (String, St
   let rules: Vec<(Vec<String>, Vec<String>, Vec<String>)> = (0..r)
     .map(|i| {
       (
-        (0..n).map(|j| get(&regs, format!("ine{}_{}", i, j))).collect(),
-        (0..m).map(|j| get(&regs, format!("oute{}_{}", i, j))).collect(),
-        (0..k).map(|j| get(&regs, format!("anne{}_{}", i, j))).collect(),
+        (0..n).map(|j| get(&regs, format!("ine{}_{}", owner(0, i, j), j))).collect(),
+        (0..m).map(|j| get(&regs, format!("oute{}_{}", owner(1, i, j), j))).collect(),
+        (0..k).map(|j| get(&regs, format!("anne{}_{}", owner(2, i, j), j))).collect(),
       )
     })
     .collect();
-  let expected = Sexp::list(vec![Sexp::atom("ok"), spec_sexp(t.orient, t.hp, &None, &inputs, &outputs, &label, &anns, &rules)]).to_string();
+  let expected = Sexp::list(vec![Sexp::atom("ok"), spec_sexp(t.orient, t.hp, &raw_name, &inputs, &outputs, &label, &anns, &rules)]).to_string();
   let mut text = String::new();
   for l in &lines {
     text.push_str(l);
@@ -2052,3 +2196,242 @@ fn mixed_family(rep: &mut Report, seed: u64, thorough: bool, scan_cases: &mut Ve
 }
 // c19fix END
 // ================================================================================================
+
+// ================================================================================================
+// Family `merged` — entry cells merged over 2, 3, … adjacent rules.
+//
+// The class: an input, output or annotation entry drawn as ONE cell over `len` adjacent rules
+// (rules as rows: the cell spans rows; rules as columns: it spans columns), `len` = 2 .. all
+// rules, for every number of rules 2..8.  The drawings are made by the grid drawer of the family
+// `mixed` (`mix_drawing_merged`: the cells of a run share one region, so no separator is drawn
+// between them and the text is written once, at a random place of the box — also on the lines
+// where the separators would have been).  The expectation is written out: the table the drawing
+// was made from, where every rule covered by a merged cell has the raw text of the whole box (what
+// `text_from_rect` cuts: all interior lines of the box).  ImplVsSpec: `build(text)` = that table,
+// field by field; the recognised table evaluates like its XML twin; every text goes to the
+// scanner model (`scanText` / `recognizeText`) with the other texts of the run.
+
+const PART_NAMES: [&str; 3] = ["input", "output", "annotation"];
+
+/// Gives the rules `s .. s+len` the entry of rule `s` at position `j` of `part`
+/// (0 inputs, 1 outputs, 2 annotations).
+fn equalise_entries(t: &mut Tbl, part: usize, j: usize, s: usize, len: usize) {
+  let text = match part {
+    0 => t.rules[s].0[j].clone(),
+    1 => t.rules[s].1[j].clone(),
+    _ => t.rules[s].2[j].clone(),
+  };
+  for i in s..s + len {
+    match part {
+      0 => t.rules[i].0[j] = text.clone(),
+      1 => t.rules[i].1[j] = text.clone(),
+      _ => t.rules[i].2[j] = text.clone(),
+    }
+  }
+}
+
+/// The longest run of equal input entries of consecutive rules (what the Lean `draw` with
+/// `merge: true` draws as one cell).
+fn longest_input_run(t: &Tbl) -> usize {
+  let mut best = 1;
+  for j in 0..t.inputs.len() {
+    let mut run = 1;
+    for i in 1..t.rules.len() {
+      if t.rules[i].0[j] == t.rules[i - 1].0[j] {
+        run += 1;
+        best = best.max(run);
+      } else {
+        run = 1;
+      }
+    }
+  }
+  best
+}
+
+/// Merges the entry cells of the rules `s .. s+len` at position `j` of `part`, unless one of them
+/// already belongs to a merged cell.
+fn merge_run(t: &mut Tbl, own: &mut Owners, part: usize, j: usize, s: usize, len: usize) -> bool {
+  let r = t.rules.len();
+  let in_run = |own: &Owners, i: usize| own[part][i][j] != i || (i + 1 < r && own[part][i + 1][j] == i);
+  if len < 2 || s + len > r || (s..s + len).any(|i| in_run(own, i)) {
+    return false;
+  }
+  equalise_entries(t, part, j, s, len);
+  for i in s..s + len {
+    own[part][i][j] = s;
+  }
+  true
+}
+
+/// Which field of the recognised table is the first to differ from the expected one / how the
+/// drawing was rejected.
+fn first_difference(obs: &ImplObs, got: &str, expected: &str) -> String {
+  match &obs.built {
+    Err(m) => format!("rejected: {}", err_name(m)),
+    Ok(_) => {
+      let names = ["", "orientation", "hit policy", "information item name", "input clauses", "output clauses", "output label", "annotations", "rules"];
+      let fields = |x: &str| Sexp::parse(x).and_then(|s| s.as_list().and_then(|l| l.get(1).and_then(|x| x.as_list().map(|v| v.to_vec())))).unwrap_or_default();
+      let (g, e) = (fields(got), fields(expected));
+      let mut which = "table";
+      for i in 1..9 {
+        if g.get(i) != e.get(i) {
+          which = names[i];
+          break;
+        }
+      }
+      format!("recognised {} differ from the drawn ones", which)
+    }
+  }
+}
+
+fn merged_family(rep: &mut Report, seed: u64, thorough: bool, scan_cases: &mut Vec<(String, ScanObs, String)>) {
+  let mut rng = Rng::new(seed ^ 0x4d45_5247_c190);
+  let variants = if thorough { 9 } else { 2 };
+  let mut idx = 0usize;
+  let mut sampled = 0usize;
+  for orient in ["rows", "cols"] {
+    for part in 0..3usize {
+      for r in 2..=8usize {
+        for len in 2..=r {
+          for _ in 0..variants {
+            idx += 1;
+            // the size of the part and the position of the merged cell in it: first / middle / last
+            let few = |rng: &mut Rng, max: u64| 1 + rng.below(max) as usize;
+            let (n, m, k, j) = match (part, idx % 3) {
+              (0, 0) => (few(&mut rng, 5), few(&mut rng, 3), rng.below(3) as usize, 0),
+              (0, 1) => {
+                let n = 3 + rng.below(3) as usize;
+                (n, few(&mut rng, 3), rng.below(3) as usize, 1 + rng.below(n as u64 - 2) as usize)
+              }
+              (0, _) => {
+                let n = few(&mut rng, 5);
+                (n, few(&mut rng, 3), rng.below(3) as usize, n - 1)
+              }
+              (1, 0) => (few(&mut rng, 5), few(&mut rng, 3), rng.below(3) as usize, 0),
+              (1, 1) => (few(&mut rng, 5), 3, rng.below(3) as usize, 1),
+              (1, _) => {
+                let m = few(&mut rng, 3);
+                (few(&mut rng, 5), m, rng.below(3) as usize, m - 1)
+              }
+              (_, 0) => (few(&mut rng, 4), few(&mut rng, 3), few(&mut rng, 2), 0),
+              (_, 1) => (few(&mut rng, 4), few(&mut rng, 3), 1, 0),
+              (_, _) => (few(&mut rng, 4), few(&mut rng, 3), 2, 1),
+            };
+            // the rules the merged cell covers: from the first rule / in the middle / to the last rule
+            let s = match (idx / 3) % 3 {
+              0 => 0,
+              1 => (r - len) / 2,
+              _ => r - len,
+            };
+            let sh = Shape {
+              orient,
+              n,
+              m,
+              k,
+              r,
+              hp: MARKERS[idx % MARKERS.len()],
+              name: rng.chance(1, 2),
+              values: rng.chance(1, 2),
+              label: rng.chance(1, 2),
+              split: false,
+              quirks: false,
+              blank_values: if rng.chance(1, 4) { 3 } else { 0 },
+              merge: false,
+            };
+            let multi = rng.chance(1, 3);
+            let mut t = gen_table(&mut rng, &sh, true, multi);
+            let mut own: Owners = [vec![(0..n).collect::<Vec<_>>(); 0], vec![], vec![]];
+            for (p, size) in [n, m, k].iter().enumerate() {
+              own[p] = (0..r).map(|i| vec![i; *size]).collect();
+            }
+            let mut runs: Vec<(usize, usize, usize, usize)> = vec![];
+            if merge_run(&mut t, &mut own, part, j, s, len) {
+              runs.push((part, j, s, len));
+            }
+            // a second merged cell in the same column, before or after the first one
+            if rng.chance(1, 4) {
+              let (s2, room) = if s >= 2 { (0, s) } else { (s + len, r - (s + len)) };
+              if room >= 2 {
+                let len2 = 2 + rng.below(room as u64 - 1) as usize;
+                let s2 = s2 + rng.below((room - len2 + 1) as u64) as usize;
+                if merge_run(&mut t, &mut own, part, j, s2, len2) {
+                  runs.push((part, j, s2, len2));
+                }
+              }
+            }
+            // more merged cells anywhere in the table
+            if rng.chance(1, 3) {
+              for _ in 0..(1 + rng.below(4)) {
+                let p2 = rng.below(3) as usize;
+                let size = [n, m, k][p2];
+                if size == 0 {
+                  continue;
+                }
+                let j2 = rng.below(size as u64) as usize;
+                let len2 = 2 + rng.below(r as u64 - 1) as usize;
+                let s2 = rng.below((r - len2 + 1) as u64) as usize;
+                if merge_run(&mut t, &mut own, p2, j2, s2, len2) {
+                  runs.push((p2, j2, s2, len2));
+                }
+              }
+            }
+            let lanes = t.header_lanes();
+            let roomy = rng.chance(2, 3);
+            let (drawing, expected) = mix_drawing_merged(&mut rng, &t, lanes, roomy, Some(&own));
+            // as a file may have it: a blank first line, the drawing indented
+            let indent = " ".repeat(rng.below(4) as usize);
+            let mut text = String::new();
+            if rng.chance(1, 2) {
+              text.push('\n');
+            }
+            for l in drawing.lines() {
+              text.push_str(&indent);
+              text.push_str(l);
+              text.push('\n');
+            }
+            rep.case(&text, true);
+            for (p, j2, s2, l2) in &runs {
+              let size = [n, m, k][*p];
+              rep.hit(&format!("merged-{}-{}:{}", PART_NAMES[*p], if *l2 >= 3 { "3+" } else { "2" }, orient));
+              rep.hit(&format!("merged-{}:rules-covered:{}", PART_NAMES[*p], l2));
+              rep.hit(&format!("merged-position:column-{}", if size == 1 { "only" } else if *j2 == 0 { "first" } else if j2 + 1 == size { "last" } else { "middle" }));
+              rep.hit(&format!("merged-position:rules-{}", if *l2 == r { "all" } else if *s2 == 0 { "from-first" } else if s2 + l2 == r { "to-last" } else { "in-the-middle" }));
+            }
+            rep.hit(&format!("merged-cells-in-table:{}", if runs.len() >= 3 { "3+".to_string() } else { runs.len().to_string() }));
+            rep.hit(&format!("merged-parts:name{}-values{}-annotations{}", t.name.is_some() as u8, t.has_values() as u8, (k > 0) as u8));
+            rep.hit(&format!("merged-rules:{}", r));
+            let obs = run_impl(&text);
+            let got = impl_outcome(&obs);
+            scan_cases.push((text.clone(), scan_obs(&obs), got.clone()));
+            if let Some((site, msg)) = &obs.panic {
+              rep.disagree(Kind::ImplVsSpec, "total", &panic_signature(site, msg), &text, &format!("panic at {}: {}", site, msg), "Ok or Err");
+              continue;
+            }
+            if got != expected {
+              let what = first_difference(&obs, &got, &expected);
+              // named after the longest merged cell of the drawing
+              let (lp, ll) = runs.iter().map(|x| (x.0, x.3)).max_by_key(|x| x.1).unwrap_or((part, len));
+              rep.disagree(
+                Kind::ImplVsSpec,
+                "merged",
+                &format!("{} entry cell merged over {} adjacent rules: {} ({})", PART_NAMES[lp], if ll >= 3 { "three or more" } else { "two" }, what, orient),
+                &text,
+                &got,
+                &expected,
+              );
+            } else {
+              rep.hit("merged:recognised-as-drawn");
+              if sampled < 2 && len >= 3 && part == 1 + sampled % 2 {
+                sampled += 1;
+                rep.sample(json!({"drawing": text, "merged": format!("{} entry, rules {}..{}", PART_NAMES[part], s + 1, s + len), "recognised": got.chars().take(300).collect::<String>()}));
+              }
+            }
+            if let Ok(dt) = &obs.built {
+              evaluate_family(rep, &mut rng, &t, dt, &text);
+            }
+          }
+        }
+      }
+    }
+  }
+}
